@@ -325,6 +325,43 @@ def value_type_cases():
         shutil.rmtree(tmp, ignore_errors=True)
 
 
+def positional_path_case():
+    """the target file may be named positionally: every operation still goes to that file and to no other"""
+    import pygaps
+    import pygaps.parsing.sqlite as S
+    from pgv.checks import c09
+    pygaps.logger.disabled = True
+    tmp = tempfile.mkdtemp(prefix='pgv-c08p-')
+    reg0 = c09._registries()
+    try:
+        db = os.path.join(tmp, 'pos.db')
+        shutil.copyfile(empty_template(tmp), db)
+        internal_before = sorted(m.name for m in S.materials_from_db(verbose=False))
+        S.material_to_db(pygaps.Material('pgv_pos_m', density=2.0), db, verbose=False)
+        probs = []
+        if sorted(m.name for m in S.materials_from_db(db, verbose=False)) != ['pgv_pos_m']:
+            probs.append(f"materials_from_db(path) -> {[m.name for m in S.materials_from_db(db, verbose=False)][:3]}")
+        if sorted(m.name for m in S.materials_from_db(db_path=db, verbose=False)) != ['pgv_pos_m']:
+            probs.append('material_to_db(material, path) did not write to the named file')
+        internal_after = sorted(m.name for m in S.materials_from_db(verbose=False))
+        if internal_after != internal_before:
+            probs.append('the internal database was changed')
+            try:
+                S.material_delete_db(pygaps.Material('pgv_pos_m'), verbose=False)
+            except Exception:
+                pass
+        return {'name': 'one_file|target_file_named_positionally', 'ok': not probs, 'detail': '; '.join(probs), 'ops': None}
+    finally:
+        c09._restore(reg0)
+        shutil.rmtree(tmp, ignore_errors=True)
+
+
+@replayer('c08.positional')
+def _positional(spec, model):
+    r = positional_path_case()
+    return {'confirmed': not r['ok'], 'observed': r['detail'], 'expected': 'operations act on the file that was named'}
+
+
 @replayer('c08.value')
 def _value(spec, model):
     bad = [r for r in value_type_cases() if not r['ok']]
@@ -341,6 +378,7 @@ def history_cases(seed, thorough=False):
     from pgv import par
     yield bulk_case(260 if thorough else 130)
     yield from value_type_cases()
+    yield positional_path_case()
     hs, two = histories(seed, thorough)
     items = [(1, h) for h in hs] + [(2, h) for h in two]
     res, crashes = par.pmap(run_chunk, par.chunks(items, 32))
